@@ -5,12 +5,15 @@ CNV-1 every convolution-based product of poulpy_core::operations::glwe splits it
       and radix (piecewise-linear identity; `lo` is negative when cnv_offset < base2k because the kernels take no negative limb offset)
 CNV-2 squaring, multiplying and the accumulating form derive (hi, lo) from the same expressions (sibling agreement of glwe_tensor_square_apply / glwe_tensor_apply /
       glwe_tensor_apply_add_assign)
-Not decided: the convolution kernels themselves (C07), noise, relinearisation arithmetic, the masks of partially used limbs.
+RAD-1 / RAD-2 (rad.py) relinearisation converts the tensor into the key radix exactly when those two radices differ; no radix-asserting operation is called with operands
+      the dominating guards make different
+Not decided: the convolution kernels themselves (C07), noise, relinearisation arithmetic beyond the radix decisions, the masks of partially used limbs.
 """
 from . import facts, sc, pwl
 from .cfg import CFG, Flow
 from .sym import Sym, Poly
 
+RAD_PREFIXES = ("poulpy_core::operations", "poulpy_core::api::operations")
 CNV_KERNELS = ("cnv_apply_dft", "cnv_pairwise_apply_dft", "cnv_by_const_apply")
 T = ("deref", "deref_mut", "borrow", "borrow_mut", "as_mut", "as_ref", "into", "from", "clone", "to_ref", "to_mut")
 
@@ -113,6 +116,8 @@ def run(res, tier):
                        "them from the same expressions. The convolution kernels, masks, relinearisation and noise are not decided.")
     res.rule("CNV-1", "hi * base2k + lo + base2k == cnv_offset on every path; all cnv_* calls of a product receive hi, all vec_znx_big_normalize calls receive lo")
     res.rule("CNV-2", "glwe_tensor_square_apply, glwe_tensor_apply and glwe_tensor_apply_add_assign derive (hi, lo) from the same expressions")
+    res.rule("RAD-1", "a cross-radix conversion skipped / taken on a radix comparison is guarded by the comparison of exactly its input and output radices (relinearisation)")
+    res.rule("RAD-2", "no call of an operation asserting equal radices of two arguments sits on a branch whose guards imply that they differ")
     res.assumptions = ["cnv_* kernels shift the product by `hi` limbs and vec_znx_big_normalize by `lo` bits (C07 / C08)", "a convolution output sits one limb below the sum of the operand positions (the `+ base2k` of the law is read off the code, the same in all seven products)"]
     cfgs = ["avx-dev"] if tier == "quick" else ["avx-dev", "ref-dev"]
     for cfg in cfgs:
@@ -129,4 +134,13 @@ def run(res, tier):
                 res.bad("CNV-2", "poulpy_core::operations::glwe", "tensor-family-split-differs", "square / multiply / accumulate derive the offset split differently: %s" % (fam,))
         else:
             res.undec("CNV-2", "tensor family not found")
+        from .c11 import wr2c
+        res.rule("WR-2", "raw column offsets of the convolution kernels: an index into X.raw() computed from a column argument uses the limb count of X itself")
+        n2c = wr2c(p, res)
+        res.floor("WR-2", "raw column offsets", n2c, 2)
+        from . import rad
+        nr1 = rad.rad1(p, res, RAD_PREFIXES)
+        res.floor("RAD-1", "guarded radix conversions of the products", nr1, 2)
+        nr2 = rad.rad2(p, res, RAD_PREFIXES)
+        res.floor("RAD-2", "calls of radix-asserting operations", nr2, 2)
         res.fn_count += n
